@@ -72,6 +72,9 @@ func c04Ops(seed int64, phase, writers int, root string) []c04Op {
 		for len(pts) < n {
 			p := data.Point{Type: types[r.Intn(len(types))], Key: []string{"", "1", "k"}[r.Intn(3)], Time: ts(), Value: val(), Origin: "w"}
 			p.Text = fmt.Sprintf("t%v", p.Value)
+			if r.Chance(0.3) {
+				p.Data = []byte(fmt.Sprintf("data-%v", p.Value))
+			}
 			k := p.Type + "/" + p.Key
 			if seen[k] {
 				continue
@@ -648,7 +651,7 @@ func runC04(tier string, args []string) int {
 						}
 						if ok && sp.Time.UnixNano() == p.Time.UnixNano() {
 							visible++
-							if sp.Value != p.Value || sp.Text != p.Text {
+							if sp.Value != p.Value || sp.Text != p.Text || sp.Origin != p.Origin || string(sp.Data) != string(p.Data) {
 								wit["op"] = o
 								c.Violate("crash:torn-point", fmt.Sprintf("op %d: stored point has the batch's timestamp but other content", o.N), wit)
 								return
